@@ -298,7 +298,7 @@ def _vexpr_term(node):
     raise ValueError(type(node).__name__)
 
 
-def expression_tie(run, rnd, quick):
+def expression_tie(run, rnd, quick, batch=0):
     """coq/Expr: (a) the model of conditional_expressions + logical_expressions (ExprLang.tr) against the real passes:
     every maximal expression of generated programs before / after the two passes, compared structurally in Coq;
     (b) the expression semantics, with the operator table generated from malt/operators on this run, against CPython.
@@ -319,7 +319,7 @@ def expression_tie(run, rnd, quick):
         out = orig_l(node, ctx)
         captured['out'] = copy.deepcopy(out)      # later passes mutate the tree in place
         return out
-    n = 40 if quick else 600
+    n = 40
     opts = progs.Opts(loop_else=False, reads='safe', boolops=True, comprehension=True, max_stmts=9, fresh_for_targets=True,
                       try_=False, with_=False)
     srcs = [progs.gen_function(rnd, opts) for _ in range(n)]
@@ -356,10 +356,10 @@ def expression_tie(run, rnd, quick):
     finally:
         conditional_expressions.transform, logical_expressions.transform = orig_c, orig_l
     run.count(len(cases))
-    run.extra['expression_pass_cases'] = len(cases)
+    run.extra['expression_pass_cases'] = run.extra.get('expression_pass_cases', 0) + len(cases)
     # (b) semantics against CPython
     vcases, vmeta = [], []
-    for j in range(250 if quick else 2500):
+    for j in range(250):
         keys = [0]
         text = _gen_vexpr(rnd, 0, keys)
         dv = [rnd.choice([0, 0, 1, 1, 2, 3]) for _ in range(keys[0] + 2)]
@@ -378,14 +378,14 @@ def expression_tie(run, rnd, quick):
                                                    '; '.join(map(str, log)), val))
         vmeta.append((text, dv))
     run.count(len(vcases))
-    run.extra['expression_semantics_runs_against_cpython'] = len(vcases)
+    run.extra['expression_semantics_runs_against_cpython'] = run.extra.get('expression_semantics_runs_against_cpython', 0) + len(vcases)
     body = ['From Coq Require Import List Arith Bool.', 'Import ListNotations.',
             'Require Import MV.Expr.ExprLang MV.Expr.ExprCheck MV.Generated.C01_ops_gen.',
             'Definition cases : list ecase := [', ';\n'.join(cases), '].',
             'Definition vcases : list vcase := [', ';\n'.join(vcases), '].',
             'Eval vm_compute in failing_ecases cases.',
             'Eval vm_compute in (failing_vcases ops_gen vcases, tt).']
-    rc, out = vlib.coq_eval('C01', 'expressions', '\n'.join(body), timeout=600)
+    rc, out = vlib.coq_eval('C01', 'expressions_%d' % batch, '\n'.join(body), timeout=900)
     bad = vlib.parse_coq_list_of_nat(out) if rc == 0 else None
     mv = re.search(r'=\s*\((\[[^\]]*\]),\s*tt\)', out)
     vbad = [int(x) for x in re.findall(r'\d+', mv.group(1))] if mv else None
@@ -401,13 +401,13 @@ def expression_tie(run, rnd, quick):
     return None, []
 
 
-def functionalise_tie(run, rnd, quick):
+def functionalise_tie(run, rnd, quick, batch=0):
     """Translation validation for coq/Fn: every generated program is converted with the real pipeline; the annotated tree
     control_flow.transform saw (reads / writes, LIVE_VARS_IN of the real analyses) and the locals of every generated body
     function (symtable of the generated code) are exported and Coq evaluates the side conditions of functionalise_correct.
     -> (message or None, programs whose conditions fail)"""
     from export import fn as fn_mod
-    n = 80 if quick else 1500
+    n = 80
     o1 = progs.Opts(loop_else=False, reads='safe', try_=False, with_=False, raise_=False, max_stmts=14, fresh_for_targets=True,
                     nested_def=False)
     o2 = progs.Opts(loop_else=False, reads='safe', try_=False, with_=False, raise_=False, max_stmts=16, max_depth=5,
@@ -438,8 +438,8 @@ def functionalise_tie(run, rnd, quick):
         if re.search(r'\b(while|for)\b', src) and ' if ' in src:
             run.nontriv('fn:' + src)
     run.count(len(cases))
-    run.extra['functionalise_programs_checked'] = len(cases)
-    run.extra['functionalise_programs_outside_the_model'] = sum(unsupported.values())
+    run.extra['functionalise_programs_checked'] = run.extra.get('functionalise_programs_checked', 0) + len(cases)
+    run.extra['functionalise_programs_outside_the_model'] = run.extra.get('functionalise_programs_outside_the_model', 0) + sum(unsupported.values())
     run.extra['functionalise_outside_reasons'] = unsupported
     if len(cases) < n // 4:
         return 'too few programs could be exported to the functionalisation model: %r' % unsupported, []
@@ -448,7 +448,7 @@ def functionalise_tie(run, rnd, quick):
             'Definition cases : list fcase := [', ';\n'.join(cases), '].',
             'Eval vm_compute in failing_fcases cases.',
             'Eval vm_compute in (map (fun c => (fst c, why_block (snd c) [])) (filter (fun c => negb (chk_block (snd c) [])) cases), tt).']
-    rc, out = vlib.coq_eval('C01', 'functionalise', '\n'.join(body), timeout=600)
+    rc, out = vlib.coq_eval('C01', 'functionalise_%d' % batch, '\n'.join(body), timeout=900)
     bad = vlib.parse_coq_list_of_nat(out) if rc == 0 else None
     if bad is None:
         return 'functionalisation conditions: model evaluation failed: ' + out[-400:], []
@@ -464,7 +464,7 @@ def functionalise_tie(run, rnd, quick):
     return None, []
 
 
-def lowering_tie(run, rnd, quick):
+def lowering_tie(run, rnd, quick, batch=0):
     """Model passes (coq/Lower/Passes.v) vs the real break / continue passes: the real pipeline is run with
     both passes wrapped; input and output trees are exported to the lowering language and Coq checks that
     the model applied to the real input gives the real output, structurally."""
@@ -508,7 +508,7 @@ def lowering_tie(run, rnd, quick):
             except lower_mod.Unsupported as e:
                 captured['err'] = str(e)
         return out
-    n = 420 if quick else 3000
+    n = 420
     opts1 = progs.Opts(reads='none', try_=False, with_=False, raise_=False, nested_def=False, max_stmts=14, loop_else=True,
                        tuple_assign=False)
     opts2 = progs.Opts(reads='none', nested_def=False, max_stmts=14, loop_else=False, tuple_assign=False, except_as=False)
@@ -542,14 +542,14 @@ def lowering_tie(run, rnd, quick):
     finally:
         break_statements.transform, continue_statements.transform, return_statements.transform = orig_b, orig_c, orig_r
     run.count(len(cases))
-    run.extra['lowering_cases'] = len(cases)
+    run.extra['lowering_cases'] = run.extra.get('lowering_cases', 0) + len(cases)
     if not cases:
         return 'no lowering case could be exported', []
-    scases, smeta, evmaps, sstats = semantic_cases(mod, sem_inputs, rnd, 2 if quick else 5)
+    scases, smeta, evmaps, sstats = semantic_cases(mod, sem_inputs, rnd, 2 if quick else 3)
     for k_, v_ in sstats.items():
-        run.extra['semantics_' + k_] = int(v_)
+        run.extra['semantics_' + k_] = run.extra.get('semantics_' + k_, 0) + int(v_)
     run.count(len(scases))
-    run.extra['semantics_runs_against_cpython'] = len(scases)
+    run.extra['semantics_runs_against_cpython'] = run.extra.get('semantics_runs_against_cpython', 0) + len(scases)
     body = ['From Coq Require Import List Arith Bool.', 'Import ListNotations.',
             'Require Import MV.Lower.Lang MV.Lower.Passes MV.Lower.PassesCheck MV.Lower.Compose MV.Lower.Source.',
             'Definition cases : list lcase := [', ';\n'.join(cases), '].',
@@ -559,14 +559,14 @@ def lowering_tie(run, rnd, quick):
             'Eval vm_compute in failing_lcases cases.', 'Eval vm_compute in map which_fails (filter (fun c => negb (check_lcase c)) cases).',
             'Eval vm_compute in (length (filter (fun c => match c with (_, b0, _, _, _, _) => lowering_hyps b0 end) cases), tt).',
             'Eval vm_compute in (length (filter (fun c => match c with (_, b0, _, _, _, _) => src_block b0 end) cases), tt, tt).']
-    rc, out = vlib.coq_eval('C01', 'lowering', '\n'.join(body), timeout=600)
+    rc, out = vlib.coq_eval('C01', 'lowering_%d' % batch, '\n'.join(body), timeout=900)
     bad = vlib.parse_coq_list_of_nat(out) if rc == 0 else None
     mh = re.search(r'=\s*\((\d+),\s*tt\)', out)
     if mh:
-        run.extra['lowering_programs_satisfying_theorem_hypotheses'] = int(mh.group(1))
+        run.extra['lowering_programs_satisfying_theorem_hypotheses'] = run.extra.get('lowering_programs_satisfying_theorem_hypotheses', 0) + int(mh.group(1))
     mh = re.search(r'=\s*\((\d+),\s*tt,\s*tt\)', out)
     if mh:
-        run.extra['lowering_programs_satisfying_source_condition'] = int(mh.group(1))
+        run.extra['lowering_programs_satisfying_source_condition'] = run.extra.get('lowering_programs_satisfying_source_condition', 0) + int(mh.group(1))
     msem = re.search(r'=\s*\((\[[^\]]*\]),\s*tt,\s*tt,\s*tt\)', out)
     sem_bad = [int(x) for x in re.findall(r'\d+', msem.group(1))] if msem else None
     if sem_bad is None and rc == 0:
@@ -669,11 +669,11 @@ def check(run):
     allkinds = [('corpus', 'm, o' in s.split('\n')[0]) for s in csrcs] + kinds
     try:
         if tie_ok:
-            lower_bad, lower_programs = lowering_tie(run, rnd, quick)
-            if not lower_bad:
-                lower_bad, lower_programs = functionalise_tie(run, rnd, quick)
-            if not lower_bad:
-                lower_bad, lower_programs = expression_tie(run, rnd, quick)
+            # the thorough tier repeats the ties in batches of the quick size (one Coq file each)
+            for batch in range(1 if quick else 6):
+                for tie in (lowering_tie, functionalise_tie, expression_tie):
+                    if not lower_bad:
+                        lower_bad, lower_programs = tie(run, rnd, quick, batch)
         mod = convrun.load_module(allsrc, PRELUDE)
         nconv = 0
         for i, src in enumerate(allsrc):
